@@ -286,6 +286,35 @@ def rule_discarding(ctx):
                 ctx.check(not problems, rule, f"{fi.qualname}:{cname}", c, f"{cname} discards its children's results / returns its input, but " + "; ".join(problems), fi, c,
                           detail="guarded by check_only(children) and the no-copy predicate")
 
+    # leaf nodes returning a mutable datum as is (no child whose result could be discarded): same no-copy requirement
+    from ..accept import accept_set
+    disc_d = set(discarding_classes(model, "deser"))
+    for m in own_methods(deser_nodes(model)):
+        cname = m.cls.name if m.cls is not None else ""
+        if cname in disc_d or classify_impl(m) == "abstract" or not m.params or len(m.params) < 2:
+            continue
+        dparam = m.params[1]
+        has_child = any(isinstance(c, ast.Call) and isinstance(c.func, ast.Attribute) and c.func.attr == "deserialize" for c in walk_no_nested(m.node))
+        returns_input = any(isinstance(r, ast.Return) and isinstance(r.value, ast.Name) and r.value.id == dparam for r in walk_no_nested(m.node))
+        if has_child or not returns_input:
+            continue
+        try:
+            acc = accept_set(model, m.cls.qualname)
+        except Exception:
+            continue
+        if not ({"list", "dict"} & set(acc)):
+            continue
+        for fi in model.functions.values():
+            if not fi.qualname.startswith(DVIS + "."):
+                continue
+            for c in walk_no_nested(fi.node):
+                if isinstance(c, ast.Call) and (dotted(c.func) or "").split(".")[-1] == cname:
+                    conj = enclosing_conjuncts(fi.node, c)
+                    reads_flag = "self.no_copy" in conj or any(norm(a) == "self.no_copy" for a in list(c.args) + [k.value for k in c.keywords])
+                    ctx.check(reads_flag, rule, f"{fi.qualname}:{cname}", None,
+                              f"{cname} returns the datum itself, lists and objects included, and is built without consulting no_copy: with no_copy=False the result shares its mutable containers with the input (deserialize(Any, d, no_copy=False) is d)",
+                              fi, c, detail="built under self.no_copy, or given the flag")
+
 
 # --------------------------------------------------------------------------- R3
 def self_reads(fn) -> Set[str]:
